@@ -69,7 +69,7 @@ def generate(rng, n, tier):
         if tw is not None and rng.random() < 0.6:     # a route that has to go from a node to its twin, or through both
             s, t = rng.choice([(tw, tw + 20), (tw + 20, tw), (s, tw + 20) if s != tw + 20 else (tw, tw + 20)])
         cases.append({'edges': g, 'src': s, 'tgt': t, 'shared': rng.random() < 0.3, 'edit': rng.random() < 0.3, 'warm': rng.choice(nodes), 'pre': rand_pre(rng), 'ids': rng.choice(['int', 'int', 'str', 'blank']),
-                      'desig': rng.choice(['id', 'id', 'id', 'getnode', 'fresh', 'other']), 'astar': rng.random() < 0.25})
+                      'desig': rng.choice(['id', 'id', 'id', 'getnode', 'fresh', 'other']), 'astar': rng.random() < 0.25, 'multi': rng.random() < 0.2})
         if rng.random() < 0.2:
             cases[-1]['nanz'] = rng.sample(nodes, rng.randint(1, min(3, len(nodes)))); cases[-1]['astar'] = False
     return cases
@@ -110,6 +110,13 @@ def run_impl(case):
         net.shortest_path(case['src'], case['warm'], output_dict=reg)
         tr = net.shortest_path(case['src'], case['tgt'], output_dict=reg)
         d = net.shortest_distance(case['src'], case['tgt'], output_dict=reg)
+    elif case.get('multi'):
+        # the documented one-to-many use: one forward pass from the source, then a route read back for several targets in turn (the warm-up node, the target itself, the target again)
+        net.run_routing_forward(case['src'])
+        w = case['warm'] if (not isinstance(case['warm'], int) or case['warm'] in net.NODES) else case['src']
+        net.run_routing_backward(w); net.run_routing_backward(case['tgt'])
+        tr = net.run_routing_backward(case['tgt'])
+        d = net.shortest_distance(case['src'], case['tgt'])
     else:
         tr = net.shortest_path(case['src'], case['tgt'])
         d = net.shortest_distance(case['src'], case['tgt'])
